@@ -212,7 +212,7 @@ def check_badcheck(case, rec):
 
 
 SUBS = [
-    Sub("attenuated", lambda tier: gen.with_carrier(att_case(tier)), check_att, quick=4000, thorough=80000),
+    Sub("attenuated", lambda tier: gen.with_carrier(att_case(tier)), check_att, quick=6000, thorough=80000),
     Sub("attenuated_badcheck", badcheck_case, check_badcheck, quick=200, thorough=2000, quick_shards=1),
 ]
 REQUIRED_CLASSES = ["attenuated:boundary", "attenuated:short_then_enough", "attenuated:win_missing",
